@@ -89,6 +89,37 @@ theorem decodeLogout_value_iff_no_error (o : Ora) (enc msg : String) (r : Option
       | some x => simp at h; obtain ⟨h1, h2⟩ := h; subst h1 h2; simp
       | none => simp at h; obtain ⟨h1, h2⟩ := h; subst h1 h2; simp
 
+/-- **`xml.DecodeAttributeQuery` as regenerated**: the SOAP envelope is decoded by `encoding/xml` (typed oracle over the
+    request's bytes) and what is returned is the AttributeQuery of its Body - possibly none, with no error: an envelope
+    without AttributeQuery decodes (the handler's chain checks for it, AttrQueryGen); never a panic -/
+theorem decodeAttributeQuery_spec (o : Ora) (request : String) :
+    DecodeAttributeQuery o request =
+      match o.f_Unmarshal_AttributeQueryEnvelope (Lib.stringToBytes request) with
+      | (some e, _) => .ok (none, some e)
+      | (none, env) => .ok (env.Body.AttributeQuery, none) := by
+  unfold DecodeAttributeQuery DecodeAttributeQuery.body
+  rcases hu : o.f_Unmarshal_AttributeQueryEnvelope (Lib.stringToBytes request) with ⟨ue, env⟩
+  cases ue <;> simp [hu, Ctl.toRes]
+
+theorem decodeAttributeQuery_no_panic (o : Ora) (request : String) : DecodeAttributeQuery o request ≠ .panic := by
+  rw [decodeAttributeQuery_spec]
+  rcases hu : o.f_Unmarshal_AttributeQueryEnvelope (Lib.stringToBytes request) with ⟨ue, env⟩
+  cases ue <;> simp
+
+/-- an error never comes with a query -/
+theorem decodeAttributeQuery_error_no_value (o : Ora) (request : String) (q : Option samlp_AttributeQueryType) (e : String)
+    (h : DecodeAttributeQuery o request = .ok (q, some e)) : q = none := by
+  rw [decodeAttributeQuery_spec] at h
+  rcases hu : o.f_Unmarshal_AttributeQueryEnvelope (Lib.stringToBytes request) with ⟨ue, env⟩
+  rw [hu] at h
+  cases ue with
+  | some e' => simp at h; exact h.1.symm
+  | none => simp at h
+
+/-- the decoder oracle the attribute-query handler consults is the regenerated decoder -/
+def AttrQueryDecoderIsGenerated (o : Ora) : Prop :=
+  ∀ request, DecodeAttributeQuery o request = .ok (o.f_DecodeAttributeQuery request)
+
 /-- the decoder oracle the SSO handler consults is the regenerated decoder -/
 def AuthNDecoderIsGenerated (o : Ora) : Prop :=
   ∀ enc msg, DecodeAuthNRequest o enc msg = .ok (o.f_DecodeAuthNRequest enc msg)
